@@ -29,7 +29,7 @@ def build(tier, seed):
         us = [(r"Vec.*GF2.*extend_with", max(r * k, r + k) + 3)]
         items.append((Harness(hn, {"kind": "DenseGenerator", "parity_bits": r, "message_bits": k, "input": "every %dx%d generator part and every pair of messages" % (r, k),
                                     "oracle": "word = [message | G*message]; encode(m1+m2) == encode(m1)+encode(m2)"}, 3.0 + r * k, unwindset=us),
-                      "crate::c02_encode_dense!(%s, %d, %d, %d);" % (hn, r, k, max(r, k) + 3)))
+                      "crate::c02_encode_dense!(%s, %d, %d, %d);" % (hn, r, k, r + k + 3)))
     # (one H0 with an all-zero row: the running sum must still be carried through it)
     stair = [("s3x2", 2, [[0], [0, 1], [1]]), ("s2x3", 3, [[0, 1], [1, 2]]), ("s3x2z", 2, [[0, 1], [], [1]])]
     if tier != "quick":
@@ -48,7 +48,7 @@ def build(tier, seed):
         us = [(r"Vec.*GF2.*extend_with", r + k + 3)]
         items.append((Harness(hn, {"kind": "Staircase", "H0_rows": rows, "message_bits": k, "input": "every message",
                                     "oracle": "word starts with the message and satisfies every check of H = [H0 | dual diagonal]"}, 4.0 + r * k, unwindset=us),
-                      "crate::c02_encode_staircase!(%s, h0_%s, H0B_%s, %d, %d, %d);" % (hn, nm, nm, r, k, max(r, k) + 3)))
+                      "crate::c02_encode_staircase!(%s, h0_%s, H0B_%s, %d, %d, %d);" % (hn, nm, nm, r, k, r + k + 3)))
     items.append((Harness("c02_gf2_ops", {"input": "all operand pairs", "oracle": "xor/and/identity"}, 0.5), "crate::c02_gf2!(c02_gf2_ops);"))
     items.append((Harness("c02_gf2_div0_zero", {"input": "0/0", "oracle": "panics"}, 0.5, covers=0), "crate::c02_gf2_div0!(c02_gf2_div0_zero, false);"))
     items.append((Harness("c02_gf2_div0_one", {"input": "1/0", "oracle": "panics"}, 0.5, covers=0), "crate::c02_gf2_div0!(c02_gf2_div0_one, true);"))
